@@ -86,6 +86,7 @@ func main() {
 	profile := flag.String("profile", "", "generator profile (default: rotate)")
 	replay := flag.String("replay", "", "file with OP lines (several histories separated by HIST lines) to execute instead of generating")
 	out := flag.String("out", "-", "output file")
+	full := flag.Bool("fullapp", false, "execute every history on the shortcut path and through the application (signed transactions, FinalizeBlock) and compare")
 	det := flag.Int("det", 1, "run every history this many times in-process and report differing logs (NONDET lines)")
 	flag.Parse()
 
@@ -128,6 +129,27 @@ func main() {
 		for i, h := range hists {
 			runHistory(w, *first+i, "replay", 0, 0, h)
 		}
+		return
+	}
+	if *full {
+		profs := []string{"fixed", "batch", "multi", "crowd", "malformed"}
+		steps, txs, diffs := 0, 0, 0
+		for i := 0; i < *n; i++ {
+			id := *first + i
+			p := *profile
+			if p == "" {
+				p = profs[id%len(profs)]
+			}
+			s, t, d := runFullApp(w, id, p, *seed*1000003+uint64(id)*7919+29, *ops)
+			steps += s
+			txs += t
+			fmt.Fprintln(w, "HEND")
+			if d != "" {
+				diffs++
+				fmt.Fprintf(w, "FULLDIFF hist=%d %s gen=fullapp-%s seed=%d\n", id, d, p, *seed*1000003+uint64(id)*7919+29)
+			}
+		}
+		fmt.Fprintf(w, "FULLSUMMARY histories=%d steps=%d transactions=%d accepted=%d foreign_signatures=%d blocks=%d diffs=%d\n", *n, steps, txs, acceptedTotal, foreignTotal, blocksTotal, diffs)
 		return
 	}
 	for i := 0; i < *n; i++ {
